@@ -28,6 +28,10 @@ def run(F, rep, tier):
     rep.explanation = EXPLANATION
     rep.undecided = UNDECIDED
     tk = positions.line_rules(F, rep, "LINE")
+    # the token stream is that of the whole file: nothing is cut off the text between the reader and the lexer (shared with C15)
+    import core, c15
+    core.borrow(rep, lambda F_, r_: c15.text_reaches_the_lexer_as_read(F_, r_), lambda o: o["rule"] == "LINE" and
+                ("tokenizer-gets" in o["key"] or "lexer-gets" in o["key"]), F)
     positions.unit_rules(F, rep, "UNIT")
     skip_rules(F, rep, tk)
     stream_rules(F, rep)
